@@ -539,13 +539,13 @@ func randWc(rng *rand.Rand) int {
 	}
 }
 
-// amounts stay below 2^63: tlb.Grams encodes through int64 (a defect of the TL-B layer reported under C03, not a wallet matter)
+// amounts over the whole uint64 range of tlb.Grams
 func randAmount(rng *rand.Rand) uint64 {
 	switch rng.Intn(6) {
 	case 0:
-		return []uint64{0, 1, 255, 256, 1<<32 - 1, 1 << 32, 1<<63 - 1, 1 << 56, 1<<56 - 1}[rng.Intn(9)]
+		return []uint64{0, 1, 255, 256, 1<<32 - 1, 1 << 32, 1<<63 - 1, 1 << 63, 1<<64 - 1, 1 << 56, 1<<56 - 1}[rng.Intn(11)]
 	case 1:
-		return rng.Uint64() >> 1
+		return rng.Uint64()
 	default:
 		return uint64(rng.Int63n(1_000_000_000_000))
 	}
@@ -712,12 +712,12 @@ func Drive(w *ev.Writer, o Opts) {
 	rand.Seed(o.Seed*1000 + int64(o.Shard)) // the highload query id draws from the global source
 	rng := rand.New(rand.NewSource(o.Seed*7919 + int64(o.Shard)*104729 + 14))
 	r := &runner{w: w}
-	nSmall, nBig, nFlip := 14, 2, 0
+	nSmall, nBig, nFlip := 12, 2, 0
 	if o.Shard < len(Versions) {
 		nFlip = 1 // quick: one fully flipped body per version (shard k starts with version k)
 	}
 	if o.Tier == "thorough" {
-		nSmall, nBig, nFlip = 160, 12, 14
+		nSmall, nBig, nFlip = 160, 12, 28
 	}
 	if o.Shard == 0 {
 		fixtures(w)
